@@ -249,7 +249,7 @@ class TaskRef(Ref):
                                     continue
                                 out.append(((o, k, t, b), Ev(si, "VT" + o, u32(t, b))))
                     out.append((("c", k, 1), Ev(si, "VTc", u32(1, 7))))
-                    out.append((("c", k, 5), Ev(si, "VTc", u32(5, 8))))     # unknown type
+                    out.append((("c", k, 5), Ev(si, "VTc", u32(5, 99))))    # unknown type
                 else:
                     for o in "xepr":
                         for t in (1, 2, 9):
@@ -316,10 +316,12 @@ class TaskRef(Ref):
         for k in range(2):
             stk = bs[1][k]
             run = stk[0] if stk and bodies[stk[0]][0] == "R" else None
-            if run and ("gid",) not in self.learn_map:
+            if run and ("gid", run[0]) not in self.learn_map:
+                # the type gid is a hash of the label: learned the first time each task is displayed;
+                # tasks of different types must then show different values
                 v = disp.get(("thread", self.rows[k], self.T["gid"]), 0)
                 if v:
-                    self.learn_map[("gid",)] = v
+                    self.learn_map[("gid", run[0])] = v
             if ss[k] and ss[k][-1] == "B" and self.body_ss is None:
                 v = disp.get(("thread", self.rows[k], self.T["ss"]), 0)
                 if v:
@@ -334,8 +336,8 @@ class TaskRef(Ref):
             run = stk[0] if stk and bodies[stk[0]][0] == "R" else None
             vals = {}
             vals[self.T["task"]] = run[0] if run else 0
-            if ("gid",) in self.learn_map:
-                vals[self.T["gid"]] = self.learn_map[("gid",)] if run else 0
+            if run and ("gid", run[0]) in self.learn_map:
+                vals[self.T["gid"]] = self.learn_map[("gid", run[0])]
             elif not run:
                 vals[self.T["gid"]] = 0
             if "app" in self.T:
@@ -382,8 +384,8 @@ def e2e_walk(ctx, build, scratch, exe, cat, m, tier):
         hs = s["loom.A/proc.100/thread.103"]
         prefix = [Ev(hs, "OHx", i32(2, 103) + i64(0)),
                   Ev(sidx[0], "OHx", i32(0, 101) + i64(0)), Ev(sidx[1], "OHx", i32(1, 102) + i64(0)),
-                  Ev(hs, m + "Yc", b"", 1, u32(7) + b"ttype\0"),
-                  Ev(hs, m + "Tc", u32(1, 7)), Ev(hs, m + "Tc", u32(2, 7))]
+                  Ev(hs, m + "Yc", b"", 1, u32(7) + b"ttype\0"), Ev(hs, m + "Yc", b"", 1, u32(8) + b"utype\0"),
+                  Ev(hs, m + "Tc", u32(1, 7)), Ev(hs, m + "Tc", u32(2, 8))]
         if m == "V":
             prefix.append(Ev(hs, "VTC", u32(3, 7)))
         pp = PrefixPool(pool, prefix)
@@ -392,7 +394,11 @@ def e2e_walk(ctx, build, scratch, exe, cat, m, tier):
         ex = LearnExplorer(ctx, pp, ref, name="e2e-" + model, report_props={"C07"}, check_time=False,
                            max_depth=(5 if tier == "quick" else 8), max_states=(4000 if tier == "quick" else 60000))
         st = ex.run()
-        ctx.part("e2e-" + model, learned_gid=ref.learn_map.get(("gid",)), body_subsystem_value=ref.body_ss)
+        gids = {str(k[1]): v for k, v in ref.learn_map.items()}
+        ctx.part("e2e-" + model, learned_gid_by_task=gids, body_subsystem_value=ref.body_ss)
+        if len(set(gids.values())) < len(gids) and len(gids) > 1 and gids.get("1") == gids.get("2"):
+            ctx.violation("%s: tasks 1 and 2 have different types but the timeline shows the same type value %r" % (model, gids),
+                          {"engine": "E3", "check": "type-distinct", "model": model}, {"kind": "type-distinct"})
         if not ctx.nviol:
             t0 = sidx[0]
             T = m + "T"
